@@ -810,17 +810,27 @@ Section Sim.
 
   Notation lit := (lit_pool pl).
 
+  Ltac stop_mk :=
+    unfold y_out;
+    first [ apply stopsL_mk
+          | match goal with |- stopsL _ _ ?s _ _ =>
+              eapply (stopsL_mk_eq _ _ _ _ _ _ _ _ _ s); [unfold s; reflexivity|] end ].
+
   (* the run reaches an excluded state: a stack / frame limit or == on two functions; or the call of
      the literal fe with argc arguments *)
-  Definition xl (prog : program) (o : option (fentry * Z)) (s : vm) : Prop :=
-    exclL orc prog s \/
-    match o with Some (fe, argc) => overL orc prog argc (fe_ip fe) (fe_n fe) s | None => False end.
+  Definition xl (prog : program) (o : option (fentry * Z)) (m : hst) (s : vm) : Prop :=
+    exclL orc prog (n_alloc (hs_heap m)) s \/
+    match o with
+    | Some (fe, argc) => overL orc prog (n_alloc (hs_heap m)) argc (fe_ip fe) (fe_n fe) s
+    | None => False
+    end.
 
-  Lemma reachesL_xl : forall prog o s1 s2, reachesL orc prog s1 s2 -> xl prog o s2 -> xl prog o s1.
+  Lemma reachesL_xl : forall prog o m s1 s2, reachesL orc prog s1 s2 -> xl prog o m s2 -> xl prog o m s1.
   Proof.
-    intros prog o s1 s2 [H|H] [Hx|Hx]; try (left; exact H).
-    - left. exact (reaches_exclL orc prog _ _ H Hx).
-    - right. destruct o as [[fe argc]|]; [|contradiction]. exact (reaches_overL orc prog _ _ _ _ _ H Hx).
+    intros prog o m s1 s2 H [Hx|Hx].
+    - left. exact (reachesL_excl orc prog _ _ _ H Hx).
+    - destruct o as [[fe argc]|]; [|contradiction].
+      destruct (reachesL_overL orc prog _ _ _ _ _ _ H Hx) as [A|A]; [right; exact A|left; exact A].
   Qed.
 
   (* what the machine does with the code of an expression, started in s = mk B tip ops y ip fin *)
@@ -833,7 +843,7 @@ Section Sim.
                    exists fin', reachesL orc prog s (ret_state B ret cbp rest v y' fin') /\ funs_ok prog (y_funs y')
     | YErr k out => stopsL orc prog s (Err k) out
     | YFault f out => stopsL orc prog s (Fault f) out
-    | YExcl o => xl prog o s
+    | YExcl o m => xl prog o m s
     | YFuel => True
     end.
 
@@ -851,7 +861,7 @@ Section Sim.
                    exists fin', reachesL orc prog s (ret_state B ret cbp rest v y' fin') /\ funs_ok prog (y_funs y')
     | YErr k out => stopsL orc prog s (Err k) out
     | YFault f out => stopsL orc prog s (Fault f) out
-    | YExcl o => xl prog o s
+    | YExcl o m => xl prog o m s
     | YFuel => True
     end.
 
@@ -865,7 +875,7 @@ Section Sim.
     | YBrk _ | YCnt _ => True
     | YErr k out => stopsL orc prog s (Err k) out
     | YFault f out => stopsL orc prog s (Fault f) out
-    | YExcl o => xl prog o s
+    | YExcl o m => xl prog o m s
     | YFuel => True
     end.
 
@@ -949,7 +959,7 @@ Section Sim.
       split; [exact (reachesL_trans orc prog _ _ _ Hr R)|exact F].
     - exact (reachesL_stopsL orc prog _ _ _ _ Hr H).
     - exact (reachesL_stopsL orc prog _ _ _ _ Hr H).
-    - exact (reachesL_xl prog _ _ _ Hr H).
+    - exact (reachesL_xl prog _ _ _ _ Hr H).
     - exact I.
   Qed.
 
@@ -970,8 +980,8 @@ Section Sim.
     intros prog B s tip1 ops0 ops y1 ip0 ip' fin1 ls le r Hr Hstep Hfo.
     destruct r as [[v m]| | |]; cbn [mk_res ylift_o sim2 fst snd y_funs] in *.
     - exists fin1, tip1. split; [|exact Hfo]. apply (reachesL_trans orc prog _ _ _ Hr). apply reachesL_step. exact Hstep.
-    - refine (reachesL_stopsL orc _ _ _ _ _ Hr _). apply stopsL_now. exact Hstep.
-    - refine (reachesL_stopsL orc _ _ _ _ _ Hr _). apply stopsL_now. exact Hstep.
+    - refine (reachesL_stopsL orc _ _ _ _ _ Hr _). stop_mk. exact Hstep.
+    - refine (reachesL_stopsL orc _ _ _ _ _ Hr _). stop_mk. exact Hstep.
     - exact I.
   Qed.
 
@@ -1063,7 +1073,7 @@ Section Sim.
 
   (* the machine reaches sa (Hreach) and fails there (Hstep) *)
   Ltac stops_via Hreach Hstep :=
-    refine (reachesL_stopsL orc _ _ _ _ _ Hreach _); apply stopsL_now; exact Hstep.
+    refine (reachesL_stopsL orc _ _ _ _ _ Hreach _); stop_mk; exact Hstep.
 
   Ltac nosig_contra f e fa fn st y HF E :=
     let N := fresh "N" in
@@ -1217,7 +1227,7 @@ Section Sim.
       by exact (reachesL_trans orc prog _ _ _ Hsim1 Hsim2).
     unfold ybinop. destruct (is_fun a && is_fun b && is_eqop op) eqn:Efe.
     - (* == / != on two function values: an excluded state *)
-      cbn [sim2]. left. apply (reachesL_excl orc prog _ sb Hsb). apply exclL_now. right.
+      cbn [sim2]. left. apply (reachesL_excl orc prog _ _ sb Hsb). apply (exclL_now orc prog sb). right.
       apply andb_prop in Efe. destruct Efe as [Efe Eo]. apply andb_prop in Efe. destruct Efe as [Fa Fb].
       destruct a as [| | |ia na| | |]; try discriminate Fa. destruct b as [| | |ib nb| | |]; try discriminate Fb.
       exists opc, ia, na, ib, nb, (ops ++ rev (y_loc y2) ++ b_below B).
@@ -1636,7 +1646,7 @@ Section Sim.
                    exists fin', reachesL orc prog s (ret_state B ret cbp rest v y' fin') /\ funs_ok prog (y_funs y')
     | YErr k out => stopsL orc prog s (Err k) out
     | YFault f out => stopsL orc prog s (Fault f) out
-    | YExcl o => xl prog o s
+    | YExcl o m => xl prog o m s
     | YFuel => True
     end.
 
@@ -1800,7 +1810,7 @@ Section Sim.
           split; [exact (reachesL_trans orc prog _ sb _ Hh Hsimr2)|exact Hfo2].
         * exact (reachesL_stopsL orc prog _ _ _ _ Hh Hsimr).
         * exact (reachesL_stopsL orc prog _ _ _ _ Hh Hsimr).
-        * exact (reachesL_xl prog _ _ sb Hh Hsimr).
+        * exact (reachesL_xl prog _ _ _ sb Hh Hsimr).
         * exact I.
   Qed.
 
@@ -2084,7 +2094,7 @@ Section Sim.
                    exists fin', reachesL orc prog sh (ret_state B ret cbp rest v y' fin') /\ funs_ok prog (y_funs y')
     | YErr k out => stopsL orc prog sh (Err k) out
     | YFault f out => stopsL orc prog sh (Fault f) out
-    | YExcl o => xl prog o sh
+    | YExcl o m => xl prog o m sh
     | YFuel => True
     end.
 
@@ -2097,7 +2107,7 @@ Section Sim.
       split; [exact (reachesL_trans orc prog _ _ _ Hr H')|exact F].
     - exact (reachesL_stopsL orc prog _ _ _ _ Hr H).
     - exact (reachesL_stopsL orc prog _ _ _ _ Hr H).
-    - exact (reachesL_xl prog _ _ _ Hr H).
+    - exact (reachesL_xl prog _ _ _ _ Hr H).
     - exact I.
   Qed.
 
@@ -2280,7 +2290,7 @@ Section Sim.
       pose proof (mk_step_jif orc prog B tip1 (lastv :: ops) y1 (code_len st3) fin1 lexit_in b [] Hjif Re) as Hstepj.
       fold sa in Hstepj.
       destruct b as [|bb| | | | |];
-        try (cbn [loop_post]; refine (reachesL_stopsL orc _ _ _ _ _ Hc1 _); apply stopsL_now; exact Hstepj).
+        try (cbn [loop_post]; refine (reachesL_stopsL orc _ _ _ _ _ Hc1 _); stop_mk; exact Hstepj).
       destruct bb.
       - (* another iteration: Pop the previous value, run the body *)
         set (sb := mk B tip1 ops y1 (code_len st4) lastv).
@@ -2315,7 +2325,7 @@ Section Sim.
           split; [exact (reachesL_trans orc prog sh sb _ Hsb Hb2)|exact Hfo2].
         + exact (reachesL_stopsL orc prog _ _ _ _ Hsb Hb1).
         + exact (reachesL_stopsL orc prog _ _ _ _ Hsb Hb1).
-        + exact (reachesL_xl prog _ _ _ Hsb Hb1).
+        + exact (reachesL_xl prog _ _ _ _ Hsb Hb1).
         + exact I.
       - (* the condition is false: the loop's value is the value of the last iteration *)
         exists fin1, tip1. split; [|exact Hfo1]. apply (reachesL_trans orc prog sh sa _ Hc1). apply reachesL_step.
@@ -2756,7 +2766,7 @@ Section Sim.
                    exists fin', reachesL orc prog s (ret_state B ret cbp rest v y' fin') /\ funs_ok prog (y_funs y')
     | YErr k out => stopsL orc prog s (Err k) out
     | YFault f out => stopsL orc prog s (Fault f) out
-    | YExcl o => xl prog o s
+    | YExcl o m => xl prog o m s
     | YFuel => True
     end.
 
@@ -2811,7 +2821,7 @@ Section Sim.
         split; [exact (reachesL_trans orc prog _ _ _ Hsim1 Hsim2')|exact Hfo2].
       + exact (reachesL_stopsL orc prog _ _ _ _ Hsim1 Hsim2).
       + exact (reachesL_stopsL orc prog _ _ _ _ Hsim1 Hsim2).
-      + exact (reachesL_xl prog _ _ _ Hsim1 Hsim2).
+      + exact (reachesL_xl prog _ _ _ _ Hsim1 Hsim2).
       + exact I.
   Qed.
 
@@ -2875,11 +2885,11 @@ Section Sim.
     { apply (step_ng_eq orc prog sc0 OCall _ Hcall); discriminate. }
     unfold ycall, ycall_g.
     destruct fv as [| | |fip n| | |];
-      try (cbn [sim2]; refine (reachesL_stopsL orc _ _ _ _ _ Hsc _); apply stopsL_now; rewrite Hng;
+      try (cbn [sim2]; refine (reachesL_stopsL orc _ _ _ _ _ Hsc _); stop_mk; rewrite Hng;
            apply (VMStepProofs.call_non_function orc prog sc0 (zlength vs) _ ((rev vs ++ ops) ++ rev (y_loc y2) ++ b_below B) []
                     Hcall eq_refl); intros; discriminate).
     destruct (n <? zlength vs) eqn:En.
-    { apply Z.ltb_lt in En. cbn [sim2]. refine (reachesL_stopsL orc _ _ _ _ _ Hsc _). apply stopsL_now. rewrite Hng.
+    { apply Z.ltb_lt in En. cbn [sim2]. refine (reachesL_stopsL orc _ _ _ _ _ Hsc _). stop_mk. rewrite Hng.
       exact (VMStepProofs.arity_checked orc prog sc0 (zlength vs) fip n ((rev vs ++ ops) ++ rev (y_loc y2) ++ b_below B) []
                Hcall eq_refl En). }
     apply Z.ltb_ge in En.
@@ -2888,7 +2898,7 @@ Section Sim.
     destruct (fe_n fe =? n) eqn:Een; cbn [negb]; [|exact I]. apply Z.eqb_eq in Een.
     destruct (Z.of_nat (length (fe_ps fe)) <? zlength vs) eqn:Eov.
     { (* more arguments than parameters: the excluded call *)
-      cbn [sim2]. apply (reachesL_xl prog _ _ sc0 Hsc). right. exists O, sc0. split; [reflexivity|].
+      cbn [sim2]. apply (reachesL_xl prog _ _ _ sc0 Hsc). right. exists O, sc0. split; [reflexivity|].
       rewrite Hfip, Een. exact (mk_at_call prog B tip2 ops y2 (code_len st2) fin2 fip n vs [] Hcall En). }
     set (y0 := mkY (y_m y2) (vs ++ repeat_val VNull (Z.to_nat (n - zlength vs))) (y_funs y2)).
     set (B' := mkB (ops ++ rev (y_loc y2) ++ b_below B) (mkFrame (code_len st2 + 2) (zlength (b_below B)) :: b_rest B)).
@@ -2933,7 +2943,7 @@ Section Sim.
       exact (reachesL_trans orc prog _ _ _ Hs0 Hret).
     - cbn [sim2]. exact (reachesL_stopsL orc prog _ _ _ _ Hs0 Hbody).
     - cbn [sim2]. exact (reachesL_stopsL orc prog _ _ _ _ Hs0 Hbody).
-    - cbn [sim2]. exact (reachesL_xl prog _ _ _ Hs0 Hbody).
+    - cbn [sim2]. exact (reachesL_xl prog _ _ _ _ Hs0 Hbody).
     - exact I.
   Qed.
 
